@@ -114,6 +114,14 @@ CheckNormHalf(e, A) ==
             /\ Abs(e.out[1] - nh.o) > 2 + TolTy(ty, (Abs(nh.o) \div 1024) + 1) THEN "SignDependent"
     ELSE ""
 
+(* Iterator::size_hint after k calls of next(): the bounds must bracket the number of elements left *)
+CheckSizeHint(e, A) ==
+    IF ~IsM(A) \/ Len(e.ia) # 1 THEN "Malformed"
+    ELSE IF e.status # "ok" THEN "Panicked"
+    ELSE IF Len(e.out) # 2 THEN "Shape"
+    ELSE LET left == IF Len(A.d) >= e.ia[1] THEN Len(A.d) - e.ia[1] ELSE 0 IN
+         IF e.out[1] <= left /\ (e.out[2] < 0 \/ left <= e.out[2]) THEN "" ELSE "Value"
+
 CheckArgmax(e, A) ==
     IF ~IsM(A) \/ ~NonEmpty(A) THEN "Malformed"
     ELSE IF e.status # "ok" THEN "Panicked"
@@ -147,6 +155,7 @@ CheckOp(e, A, B) ==
       [] e.op \in VarOps  -> CheckVar(e, A)
       [] e.op = "softmax_mut" -> CheckSoftmax(e, A)
       [] e.op \in NormHalfOps -> CheckNormHalf(e, A)
+      [] e.op = "iter_size_hint" -> CheckSizeHint(e, A)
       [] e.op = "argmax"  -> CheckArgmax(e, A)
       [] e.op \in {"unique", "v_unique"} -> CheckUnique(e, A)
       [] OTHER -> "UnknownOp"
@@ -159,7 +168,7 @@ Check(e, A, B) == Verdict(e, A, B, CheckOp(e, A, B))
 (* per operation (accepted result), one per rejected incompatible call,    *)
 (* and a few for the cases on which the statement is silent.               *)
 (***************************************************************************)
-AllOps == RegOps \cup QIntOps \cup EqOps \cup QRatOps \cup VarOps \cup NormHalfOps \cup {"softmax_mut", "argmax", "unique", "v_unique"}
+AllOps == RegOps \cup QIntOps \cup EqOps \cup QRatOps \cup VarOps \cup NormHalfOps \cup {"iter_size_hint","softmax_mut", "argmax", "unique", "v_unique"}
 RejName(op) == "reject_" \o op
 HitNames == AllOps \cup { RejName(op) : op \in RejectOps }
             \cup {"eq_false_on_shape_mismatch", "eq_false_same_size_other_shape", "approx_false_same_size_other_shape",
@@ -167,9 +176,11 @@ HitNames == AllOps \cup { RejName(op) : op \in RejectOps }
                   "reject_ab_00", "reject_ab_01", "reject_ab_10", "reject_ab_11", "reject_vector_shaped_operand",
                   "op_on_native_operand", "operands_intact_after_copying_call",
                   "op_in_scale_mode", "op_in_ulp_mode", "unique_in_scale_mode", "unique_in_ulp_mode",
-                  "minmax_in_scale_mode", "minmax_in_ulp_mode", "dot_cross_orientation", "unconstrained_softmax_matrix",
+                  "minmax_in_scale_mode", "minmax_in_ulp_mode", "dot_cross_orientation",
+                  "op_on_more_than_1024_elements", "reduction_on_more_than_1024_elements", "iter_adaptor_non_square", "unconstrained_softmax_matrix",
                   "unique_sorted", "argmax_tie", "inplace_equals_copy"}
 
+TieAt(A, i, m) == Cardinality({j \in 1..A.c : At(A, i, j) = m}) > 1     \* m: the row maximum, evaluated once
 HitSet(e, A, B, cl) ==
     IF cl # "" THEN {}
     ELSE (IF e.status = "panic" THEN {RejName(e.op)} ELSE {e.op})
@@ -197,14 +208,18 @@ HitSet(e, A, B, cl) ==
          \cup (IF e.op \in {"min", "max", "argmax"} /\ mode = "scale" THEN {"minmax_in_scale_mode"} ELSE {})
          \cup (IF e.op \in {"min", "max", "argmax"} /\ mode = "ulp" THEN {"minmax_in_ulp_mode"} ELSE {})
          \cup (IF e.op = "dot" /\ e.status = "ok" /\ ~SameShape(A, B) THEN {"dot_cross_orientation"} ELSE {})
+         \* the size ladder: operands whose element count crosses 64 / 128 / ... / 1024 (internal block sizes)
+         \cup (IF A.k # "e" /\ Len(A.d) > 1024 THEN {"op_on_more_than_1024_elements"} ELSE {})
+         \cup (IF A.k # "e" /\ Len(A.d) > 1024 /\ e.op \in {"sum", "v_sum", "mean", "v_mean", "column_mean", "dot", "v_dot", "norm1", "v_norm1"}
+               THEN {"reduction_on_more_than_1024_elements"} ELSE {})
+         \cup (IF e.op \in IterOps /\ IsM(A) /\ A.r # A.c THEN {"iter_adaptor_non_square"} ELSE {})
          \cup (IF e.op = "eq" /\ e.status = "ok" /\ e.bool THEN {"eq_true"} ELSE {})
          \cup (IF e.op = "eq" /\ e.status = "ok" /\ ~e.bool /\ A.k # "e" /\ B.k # "e" /\ SameShape(A, B) THEN {"eq_false_same_shape"} ELSE {})
          \cup (IF e.op \in {"div", "div_mut", "v_div", "v_div_mut"} /\ e.status = "ok" /\ \E x \in 1..Len(B.d) : B.d[x] = 0
                THEN {"unconstrained_div0"} ELSE {})
          \cup (IF e.op = "softmax_mut" /\ ~IsVecShaped(A) THEN {"unconstrained_softmax_matrix"} ELSE {})
          \cup (IF e.op \in {"unique", "v_unique"} /\ e.status = "ok" /\ IsSortedAsc(e.out) THEN {"unique_sorted"} ELSE {})
-         \cup (IF e.op = "argmax" /\ \E i \in 1..A.r : Cardinality({j \in 1..A.c : At(A, i, j) = SeqMax(Row(A, i))}) > 1
-               THEN {"argmax_tie"} ELSE {})
+         \cup (IF e.op = "argmax" /\ \E i \in 1..A.r : TieAt(A, i, SeqMax(Row(A, i))) THEN {"argmax_tie"} ELSE {})
          \cup (IF e.op \in WritesFirst /\ e.status = "ok" THEN {"inplace_equals_copy"} ELSE {})
 
 (***************************************************************************)
